@@ -24,7 +24,8 @@ static const char *kOpNames[OP_NKINDS] = {
     "O_DROP",
     "N_NEW", "N_BAD", "N_GEN", "N_COPY", "N_ASSIGN", "N_DROP",
     "I_INTERP", "Q_NUMINT",
-    "M_SEND", "M_RECV", "X_PIN"};
+    "M_SEND", "M_RECV", "X_PIN",
+    "O_SH_BUILD", "O_SH_APPLY", "O_SH_BILIN", "O_SH_LIN"};
 
 const char *op_name(int kind) {
   return kind >= 0 && kind < OP_NKINDS ? kOpNames[kind] : "?";
@@ -45,7 +46,7 @@ static const char *kProbeNames[PR_NKINDS] = {
     "self_assign", "self_iadd", "xgrid_call", "xgrid_refused",
     "eqgrid_distinct", "idx_in", "idx_edge", "idx_huge", "idx_wrap",
     "last_owner_task", "msg_sent", "msg_recv", "c03_compared", "sweep_points",
-    "factor_inside", "twin_compared", "pin_taken", "pin_checked", "alias_scalar"};
+    "factor_inside", "twin_compared", "pin_taken", "pin_checked", "alias_scalar", "nonconst_operand", "xvalue_operand"};
 const char *entry_name(int e) {
   static const char *n[E_N] = {"operator+", "operator-", "operator*", "operator+=", "operator-=", "linearCombination",
                                "BilinearForm", "integrate<n>", "apply(spline-factor operator)", "LinearForm(spline-factor operator)",
@@ -503,7 +504,12 @@ void check_history_independence(const Pool &pool, std::vector<Violation> &out, c
               xs.push_back(T::make(sup[k].raw()));
               if (k + 1 < n) xs.push_back(T::make((sup[k].raw() + sup[k + 1].raw()) / Val(2)));
             }
-            S twin(Support(sup.getGrid(), sup.getStartIndex(), sup.getEndIndex()), sp.getCoefficients());
+            // the twin lives on a freshly built grid (new storage, equal points):
+            // state attached to the grid object or its storage is pristine too
+            std::vector<T> pts;
+            for (const auto &gp : sup.getGrid()) pts.push_back(T::make(gp.raw()));
+            Grid fresh(std::move(pts));
+            S twin(Support(fresh, sup.getStartIndex(), sup.getEndIndex()), sp.getCoefficients());
             std::vector<uint64_t> ref(xs.size());
             for (size_t k = 0; k < xs.size(); k++) ref[k] = twin(xs[k]).bits();  // ascending, pristine
             for (size_t k = xs.size(); k-- > 0;)                                   // descending, with history
@@ -541,6 +547,7 @@ void compare_snapshots(const Snapshot &before, const Snapshot &after,
     if (before[i] == after[i]) continue;
     bool is_target = (i == out.target || i == out.target2);
     if (is_target && out.status == ST_OK) continue;
+    if (i == out.pilfer1 || i == out.pilfer2) continue;  // handed over as an xvalue
     Violation v;
     v.prop = "C14";
     if (is_target) {
